@@ -178,7 +178,12 @@ struct Case {
 
 fn gen_ssh_url(r: &mut Rng) -> Case {
     let scp = r.chance(2, 5);
-    let (user, user_class) = if r.chance(3, 5) { component(r, false) } else { (String::new(), "none") };
+    // "empty" = a user part that is present but empty (`ssh://@host/`, `ssh://:pw@host/`)
+    let (user, user_class) = match r.below(10) {
+        0 => (String::new(), "empty"),
+        1..=6 => component(r, false),
+        _ => (String::new(), "none"),
+    };
     let (host, host_class) = match r.below(6) {
         0 | 1 => component(r, false),
         2 => ("[::1]".to_string(), "ipv6"),
@@ -209,7 +214,7 @@ fn gen_ssh_url(r: &mut Rng) -> Case {
         s.push_str(*r.pick(&["ssh://", "ssh://", "git+ssh://", "ssh+git://", "SSH://"]));
         if user_class != "none" {
             s.push_str(&user);
-            if r.chance(1, 6) {
+            if r.chance(1, if user_class == "empty" { 2 } else { 6 }) {
                 s.push_str(":pw");
             }
             s.push('@');
